@@ -98,11 +98,12 @@ def r1b_timeout_arm_releases(ctx, mod):
     arms = [h for t in ast.walk(fn) if isinstance(t, ast.Try) for h in t.handlers
             if h.type is not None and 'TimeoutError' in norm(h.type)]
     ctx.require(len(arms) == 1, "_execute_with_timeout has no single TimeoutError arm")
-    rel = [c for st in arms[0].body for c in calls(st) if is_self_call(c, '_stop_mocking')
-           or is_self_call(c, '_stop_patches')]
-    cap = [c for st in arms[0].body for c in calls(st) if is_self_call(c, '_capture_exception')]
-    ok = bool(rel) and (not cap or arms[0].body.index(_stmt_of(rel[0], arms[0])) <
-                        arms[0].body.index(_stmt_of(cap[0], arms[0])))
+    from ..astutil import flat_self_calls
+    seq = flat_self_calls(arms[0].body, mod.cls('Sandbox'),
+                          stop=('_stop_mocking', '_stop_patches', '_capture_exception'))
+    rel = [i for i, c in enumerate(seq) if is_self_call(c, '_stop_mocking') or is_self_call(c, '_stop_patches')]
+    cap = [i for i, c in enumerate(seq) if is_self_call(c, '_capture_exception')]
+    ok = bool(rel) and (not cap or rel[0] < cap[0])
     ctx.check(ok, 'R1', 'Sandbox._execute_with_timeout:timeout-arm-releases', mod, arms[0],
               "after a time-limit violation the grader's arm does not stop the patches of the abandoned execution "
               "(before recording the timeout): restoring them is left to the student thread, which may never unwind",
@@ -229,6 +230,14 @@ def r3_release_complete_and_owned(ctx, mod):
                     if isinstance(c.func, ast.Attribute) and c.func.attr == helper:
                         n += 1
                         ok = (m is mod and q == owner)
+                        if not ok and m is mod and q.startswith('Sandbox.') and q.count('.') == 1:
+                            # a private helper with a single caller is attributed to that caller
+                            from ..astutil import root_caller
+                            root = 'Sandbox.' + root_caller(mod.cls('Sandbox'), q.split('.', 1)[1], anchors=(
+                                '_execute', '_execute_with_timeout', '_start_mocking', '_stop_mocking',
+                                '_start_patches', '_stop_patches', '_capture_exception'))
+                            if root != owner:
+                                q = root
                         ctx.check(ok, 'R3', "who-may-call:%s@%s" % (helper, q), m, c,
                                   "%s is called directly from %s; only %s may call it (it releases the patches but "
                                   "not the stdout frame pushed by _start_mocking)" % (helper, q, owner),
